@@ -152,3 +152,28 @@ pub fn lying_iter() {
         Err(_) => assert!(false, "[C16/lying.kind] a wrong announced length is reported as a length mismatch"),
     }
 }
+
+/// zero-sized elements: slice, iterator wrapper and vector agree (added after seed C16-R8:
+/// a batching buffer sized `bytes / size_of::<T>()`)
+// @h same_as_vec_unit props=C16 tier=quick kind=bounded bound="len<=3" vars="items:Vec<()> / PhantomData items; payload level, stream offset 3" fns="impls/slice.rs,impls/iter.rs:SerializeHelper<Zero>,ser/helpers.rs"
+#[kani::proof]
+#[kani::unwind(6)]
+pub fn same_as_vec_unit() {
+    let n: usize = kani::any();
+    kani::assume(n <= 3);
+    let all = [(); 3];
+    let v: Vec<()> = all[..n].to_vec();
+    let mut a = ArrSink::<32>::new();
+    let (ra, _) = ser_at(&v, 3, &mut a);
+    let mut b = ArrSink::<32>::new();
+    let s: &[()] = v.as_slice();
+    let (rb, _) = ser_at(&s, 3, &mut b);
+    let mut d = ArrSink::<32>::new();
+    let (rd, _) = ser_at(&SerIter::from(all[..n].iter()), 3, &mut d);
+    assert!(ra.is_ok() && rb.is_ok() && rd.is_ok(), "[C16/ok] all three serializations succeed");
+    assert!(same_sinks(&a, &b), "[C16/slice.bytes] a slice of zero-sized elements serializes like the vector");
+    assert!(same_sinks(&a, &d), "[C16/iter.bytes] an iterator over zero-sized elements serializes like the vector");
+    core::mem::forget((ra, rb, rd));
+    kani::cover!(n == 3, "[cover] three items reached");
+    kani::cover!(n == 0, "[cover] empty reached");
+}
